@@ -546,28 +546,38 @@ type c11loop struct {
 	coll  ssa.Value
 	exit  *ssa.BasicBlock
 	shape string
+	cl    *pfCountLoop
 }
 
+// exitEdge: from → to is taken when the loop condition is false (head → exit of a top-tested loop;
+// latch → exit and guard → exit of a bottom-tested one).
+func (l *c11loop) exitEdge(from, to *ssa.BasicBlock) bool { return l.cl.exitEdge(from, to) }
+
+// c11LoopShape: L is `for index := 0; index < len(coll); index++` in the top-tested form (head → exit
+// is the only loop-condition-false edge: callers outside this file rely on that).
 func (p *Program) c11LoopShape(L *Loop) (*c11loop, string) {
-	iff, ok := L.Head.Instrs[len(L.Head.Instrs)-1].(*ssa.If)
-	if !ok {
-		return nil, "loop header does not end in a condition"
+	l, why := p.c11CountLoop(L)
+	if l != nil && l.cl.Rot != nil {
+		return nil, "bottom-tested loop (the condition is tested at the end of the iteration)"
 	}
-	cond, ok := iff.Cond.(*ssa.BinOp)
-	if !ok || cond.Op != token.LSS {
-		return nil, "loop condition is not `index < len(collection)`: " + p.describe(iff.Cond)
+	return l, why
+}
+
+// c11CountLoop: L visits every index of coll from 0 upwards, top- or bottom-tested (pfCountingLoop);
+// use exitEdge to tell "the loop ran to its end" from leaving it early.
+func (p *Program) c11CountLoop(L *Loop) (*c11loop, string) {
+	cl, why := p.pfCountingLoop(L)
+	if cl == nil {
+		return nil, why
 	}
-	lc, ok := cond.Y.(*ssa.Call)
+	lc, ok := cl.Bound.(*ssa.Call)
 	if !ok {
-		return nil, "loop bound is not len(): " + p.describe(cond.Y)
+		return nil, "loop bound is not len(): " + p.describe(cl.Bound)
 	}
 	if b, isB := lc.Call.Value.(*ssa.Builtin); !isB || b.Name() != "len" {
-		return nil, "loop bound is not len(): " + p.describe(cond.Y)
+		return nil, "loop bound is not len(): " + p.describe(cl.Bound)
 	}
-	if !L.Body[L.Head.Succs[0]] || L.Body[L.Head.Succs[1]] {
-		return nil, "loop header edges are not (body, exit)"
-	}
-	return &c11loop{L: L, idx: cond.X, coll: lc.Call.Args[0], exit: L.Head.Succs[1]}, ""
+	return &c11loop{L: L, idx: cl.Idx, coll: lc.Call.Args[0], exit: cl.Exit, cl: cl}, ""
 }
 
 func (p *Program) c11DuplicateCheck(fn *ssa.Function) (problems, unknown, notes []string) {
@@ -614,11 +624,11 @@ func (p *Program) c11DuplicateCheck(fn *ssa.Function) (problems, unknown, notes 
 	if outer == nil {
 		return []string{"the lookup is not inside two nested loops (phases × objects)"}, nil, nil
 	}
-	in, why := p.c11LoopShape(inner)
+	in, why := p.c11CountLoop(inner)
 	if in == nil {
 		return nil, []string{"inner loop: " + why}, nil
 	}
-	out, why := p.c11LoopShape(outer)
+	out, why := p.c11CountLoop(outer)
 	if out == nil {
 		return nil, []string{"outer loop: " + why}, nil
 	}
@@ -661,7 +671,7 @@ func (p *Program) c11DuplicateCheck(fn *ssa.Function) (problems, unknown, notes 
 	for _, l := range []*c11loop{in, out} {
 		for b := range l.L.Body {
 			for _, s := range b.Succs {
-				if !l.L.Body[s] && !(b == l.L.Head && s == l.exit) {
+				if !l.L.Body[s] && !l.exitEdge(b, s) {
 					problems = append(problems, fmt.Sprintf("the loop is left early from b%d (break/return before all objects were visited)", b.Index))
 				}
 			}
@@ -704,7 +714,7 @@ func (p *Program) c11DuplicateCheck(fn *ssa.Function) (problems, unknown, notes 
 		problems = append(problems, "a key that was not yet visited is not inserted into the key set")
 	}
 	// error-free returns only after the outer loop is exhausted, returning the accumulated violations
-	reach := pfReachable(fn, func(from, to *ssa.BasicBlock) bool { return from == out.L.Head && to == out.exit }, nil)
+	reach := pfReachable(fn, out.exitEdge, nil)
 	for _, rc := range p.returnCases(fn) {
 		if !p.pfErrMayBeNil(rc.Facts, rc.Results[len(rc.Results)-1]) {
 			continue
@@ -718,6 +728,11 @@ func (p *Program) c11DuplicateCheck(fn *ssa.Function) (problems, unknown, notes 
 				if pv == app {
 					has = true
 				}
+			}
+			// bottom-tested outer loop, return split on the edge guard → exit (no phase at all):
+			// the accumulator still has its initial value
+			if rot := out.cl.Rot; !has && rot != nil && rc.Pred != nil && rc.Pred != rot.Latch && out.exitEdge(rc.Pred, rc.Ret.Block()) {
+				has = p.pfInitialOfCarried(out.L, rc.Pred, rc.Results[0], app)
 			}
 			if !has {
 				problems = append(problems, "the error-free return at "+p.IPos(rc.Ret)+" does not return the collected violations")
